@@ -258,9 +258,13 @@ fn calculate_new_withdraw_rate(
         if slashed_amount.0.u128() != 0u128 {
             slashed_amount_of_batch += Uint256::one();
         }
-        actual_unbonded_amount_of_batch = Uint256::from(
-            SignedInt::from_subtraction(unbonded_amount_of_batch, slashed_amount_of_batch).0,
-        );
+        // a batch can not lose more than it holds: saturate at zero instead of taking the
+        // absolute value of the difference
+        actual_unbonded_amount_of_batch = if slashed_amount_of_batch > unbonded_amount_of_batch {
+            Uint256::zero()
+        } else {
+            unbonded_amount_of_batch - slashed_amount_of_batch
+        };
     }
 
     // Calculate the new withdraw rate
